@@ -1,5 +1,6 @@
 import MdkVerif.Model.Client
 import MdkVerif.Proofs.Client
+import MdkVerif.Props.C06Wrap
 /-
   C08 — The stored group record always mirrors the MLS state.
   `Inv c`: the record (epoch, name, admins) equals what the client's MLS state says, and the same holds
@@ -230,5 +231,13 @@ theorem sync_inv (id : Nat) (p : Bool) (r : Nat) (ms as : List Nat) (name : Nat)
       | clear => exact inv_clear c h
       | restart => exact inv_restart c h
   exact (this ops _ (inv_init id p r ms as name)).1
+
+/-! ### routing (second half of the property): incoming events are matched to the group by the nostr group id
+    currently in force and never to a different group — proved in Props/C06Wrap.lean over Model.Wrap (several groups
+    per client), re-exported here so that they are obligations of this property -/
+theorem wrap_accept_iff : type_of% @C06Wrap.wrap_accept_iff := @C06Wrap.wrap_accept_iff
+theorem wrap_accept_unique : type_of% @C06Wrap.wrap_accept_unique := @C06Wrap.wrap_accept_unique
+theorem wrap_routes_only_by_current_id : type_of% @C06Wrap.wrap_routes_only_by_current_id := @C06Wrap.wrap_routes_only_by_current_id
+theorem wrap_old_id_no_longer_routes : type_of% @C06Wrap.wrap_old_id_no_longer_routes := @C06Wrap.wrap_old_id_no_longer_routes
 
 end MdkVerif.Props.C08
